@@ -722,7 +722,17 @@ func ruleLexClass(p *Prog, r *Report) {
 		}
 	}
 	if nUp < 5 {
-		r.unk(rule, rule+":upper-emit:count", "", fmt.Sprintf("only %d emissions of keyword tokens found, 5 were confirmed by reading", nUp))
+		// the emissions are not five separate calls with a constant token type
+		// (a table, a shared helper): decide by lexing lower-case text with
+		// every keyword-like token kind in it
+		if d, decided, good := upperCasedByEvaluation(p, byVal); !decided {
+			r.unk(rule, rule+":upper-emit:count", "", fmt.Sprintf("only %d emissions of keyword tokens found, 5 were confirmed by reading, and the lexer could not be evaluated on sample text", nUp))
+		} else if good {
+			r.ok(rule, rule+":upper-emit:count", "", d)
+			r.Credit(rule, 5-nUp)
+		} else {
+			r.bad(rule, rule+":upper-emit:count", "", d)
+		}
 	}
 	// constants the parser compares token values with are upper-case
 	nC := 0
@@ -1469,4 +1479,40 @@ func unwrapChange(v ssa.Value) ssa.Value {
 		}
 		v = c.X
 	}
+}
+
+// upperCasedByEvaluation lexes lower-case message texts that hold every
+// keyword-like token kind and every data item keyword, and compares the
+// tokens of those kinds with the upper-cased words.
+func upperCasedByEvaluation(p *Prog, kinds map[int64]string) (detail string, decided, good bool) {
+	texts := []struct {
+		text string
+		want []string
+	}{
+		{"s1f1 w h->e\n<boolean t f>\n.", []string{"S1F1", "W", "H->E", "BOOLEAN", "T", "F"}},
+		{"s127f255 [w] h<-e\n<l <a> <b> <f4> <f8> <i1> <i2> <i4> <i8> <u1> <u2> <u4> <u8>>\n.", []string{"S127F255", "[W]", "H<-E", "L", "A", "B", "F4", "F8", "I1", "I2", "I4", "I8", "U1", "U2", "U4", "U8"}},
+		{"S6F11 W H<->E\n<L <Boolean T> <bOOLEAN f>>\n.", []string{"S6F11", "W", "H<->E", "L", "BOOLEAN", "T", "BOOLEAN", "F"}},
+	}
+	var bad []string
+	n := 0
+	for _, tc := range texts {
+		toks, ok := lexAll(p, "lexMessageHeader", tc.text, 400)
+		if !ok {
+			return "", false, false
+		}
+		var got []string
+		for _, t := range toks {
+			if _, isKw := kinds[t.typ]; isKw {
+				got = append(got, t.val)
+			}
+		}
+		n += len(got)
+		if strings.Join(got, " ") != strings.Join(tc.want, " ") {
+			bad = append(bad, fmt.Sprintf("the text %q yields the keyword-like tokens %v, expected %v", tc.text, got, tc.want))
+		}
+	}
+	if len(bad) > 0 {
+		return strings.Join(firstN(bad, 2), "; "), true, false
+	}
+	return fmt.Sprintf("evaluated on three lower- and mixed-case messages: all %d stream/function, wait-bit, direction, item-type and boolean tokens are emitted upper-cased", n), true, true
 }
